@@ -272,6 +272,8 @@ func dirtyPool(spec string, trap bool) []dirtyCase {
 		high = "write_byte(0, 0x80); write_byte(13, 95); write_byte(0xA055, 0x7C); write_byte(12, 70); write_byte(0x8001, 0x7D)"
 	}
 	pool := []dirtyCase{
+		// no instruction executed (the cycle counter stays 0), but the script touched memory
+		{"zerocycle", prg(0x0800, 0x00), "function arrange() write_byte(0x0340, 7) read_byte(0x0340) read_byte(0x0341) end\nfunction assert() return true end\n" + trapFn},
 		{"highbank", prg(0x0800, 0xE8, 0x00), "function arrange() " + high + " end\nfunction assert() return true end\n" + trapFn},
 	}
 	return append([]dirtyCase{
@@ -311,7 +313,7 @@ func observe(spec string, c *cpu.CPU6502, trapAddr uint16, trap bool) string {
 	return b.String()
 }
 
-func isolationRun(spec string, prexec, trap bool, dir string, cases []dirtyCase) ([]string, []string) {
+func isolationRun(spec string, model string, prexec, trap bool, dir string, cases []dirtyCase) ([]string, []string) {
 	trapAddr := uint16(0x7F00)
 	if spec == "Linear16K" {
 		trapAddr = 0x3F00
@@ -324,7 +326,7 @@ func isolationRun(spec string, prexec, trap bool, dir string, cases []dirtyCase)
 	fa.bins["setup.a"] = writeFile(dir, "setup.bin", prg(0x0900, 0xA9, 0xAB, 0x8D, 0x00, 0x02, 0xA2, 0x07, 0x00))
 	cfg := emuconfig.DefaultConfig()
 	cfg.MemSpec = spec
-	cfg.Model = "65C02"
+	cfg.Model = model
 	repo, _ := verifier.NewCaseRepo(dir, "")
 	ce := caseexec.NewCaseExec(cfg, fakeAsmProv{fa}, repo, false)
 	var outBuf strings.Builder
@@ -372,10 +374,11 @@ func isolationCase(r *rng.R, dir string) string {
 	for i := 0; i < k; i++ {
 		cases = append(cases, pool[r.Intn(len(pool))])
 	}
-	starts, results := isolationRun(spec, prexec, trap, dir, cases)
+	model := []string{"6502", "65C02"}[r.Intn(2)]
+	starts, results := isolationRun(spec, model, prexec, trap, dir, cases)
 	eq := []string{}
 	for i, dc := range cases {
-		soloStart, soloRes := isolationRun(spec, prexec, trap, dir, []dirtyCase{dc})
+		soloStart, soloRes := isolationRun(spec, model, prexec, trap, dir, []dirtyCase{dc})
 		s := "1"
 		if i >= len(starts) || len(soloStart) != 1 || starts[i] != soloStart[0] {
 			s = "0"
@@ -398,7 +401,7 @@ func isolationCase(r *rng.R, dir string) string {
 	if trap {
 		tr = 1
 	}
-	return fmt.Sprintf("isolation %s %d %d %s => %s", spec, pe, tr, strings.Join(names, ","), strings.Join(eq, ","))
+	return fmt.Sprintf("isolation %s.%s %d %d %s => %s", spec, model, pe, tr, strings.Join(names, ","), strings.Join(eq, ","))
 }
 
 func isolationStream(seed uint64, n int) {
